@@ -113,10 +113,10 @@ ROUTING = {
     "sign::CoseSign::tbs_detached_data": dict(fn="sign::sig_structure_data", self="ref", context="CoseSignature", sign=("param", 3), aad=2, payload=("detached", 1)),
     "sign::CoseSign1::tbs_data": dict(fn="sign::sig_structure_data", self="ref", context="CoseSign1", sign="none", aad=1, payload="self-or-empty"),
     "sign::CoseSign1::tbs_detached_data": dict(fn="sign::sig_structure_data", self="ref", context="CoseSign1", sign="none", aad=2, payload=("detached", 1)),
-    "mac::CoseMac::tbm": dict(fn="mac::mac_structure_data", self="ref", context="CoseMac", sign=None, aad=1, payload="self-required"),
-    "mac::CoseMac0::tbm": dict(fn="mac::mac_structure_data", self="ref", context="CoseMac0", sign=None, aad=1, payload="self-required"),
+    "mac::CoseMac::tbm": dict(private=True, fn="mac::mac_structure_data", self="ref", context="CoseMac", sign=None, aad=1, payload="self-required"),
+    "mac::CoseMac0::tbm": dict(private=True, fn="mac::mac_structure_data", self="ref", context="CoseMac0", sign=None, aad=1, payload="self-required"),
     "encrypt::CoseRecipient::decrypt": dict(fn="encrypt::enc_structure_data", self="ref", context=("param", 1), sign=None, aad=2, payload=None, needs_ciphertext=True),
-    "encrypt::CoseRecipientBuilder::aad": dict(fn="encrypt::enc_structure_data", self="builder-ref", context=("param", 1), sign=None, aad=2, payload=None),
+    "encrypt::CoseRecipientBuilder::aad": dict(private=True, fn="encrypt::enc_structure_data", self="builder-ref", context=("param", 1), sign=None, aad=2, payload=None),
     "encrypt::CoseEncrypt::decrypt": dict(fn="encrypt::enc_structure_data", self="ref", context="CoseEncrypt", sign=None, aad=1, payload=None, needs_ciphertext=True),
     "encrypt::CoseEncryptBuilder::create_ciphertext": dict(fn="encrypt::enc_structure_data", self="builder", context="CoseEncrypt", sign=None, aad=2, payload=None),
     "encrypt::CoseEncryptBuilder::try_create_ciphertext": dict(fn="encrypt::enc_structure_data", self="builder", context="CoseEncrypt", sign=None, aad=2, payload=None),
